@@ -602,3 +602,22 @@ func (s *State) MarshalTo(h int, size int) (V, bool) {
 	pan, _ := guarded(func() string { return fmt.Sprintf("marshalto %v", before) }, func() { n, err = p.MarshalTo(buf) })
 	return s.emit(V{"op": "marshalto", "h": h, "size": size, "ok": !pan && err == nil, "n": n, "out": abs.Bytes(buf), "panic": pan, "post": post(before, p)}), true
 }
+
+// Rebuild overwrites the packet under h in place (same object, new field
+// values), as a caller reusing a struct does.
+func (s *State) Rebuild(h int, v any) V {
+	old, ok := s.Pk[h].(rtcp.Packet)
+	buildMu.Lock()
+	abs.Spare = [][]byte{}
+	nw := BuildAny(v)
+	s.spare[h] = abs.Spare
+	abs.Spare = nil
+	buildMu.Unlock()
+	if np, ok2 := nw.(rtcp.Packet); ok && ok2 && reflect.TypeOf(old) == reflect.TypeOf(np) {
+		reflect.ValueOf(old).Elem().Set(reflect.ValueOf(np).Elem())
+	} else {
+		s.Pk[h] = nw
+	}
+	delete(s.in, h)
+	return s.emit(V{"op": "build", "h": h, "v": v})
+}
